@@ -3,6 +3,7 @@
 #include <rapidcheck.h>
 #include "vops.h"
 #include "vcops.h"
+#include <functional>
 using namespace v; using namespace vo;
 template <typename T> static rc::Gen<T> UNI(T lo, T hi) { return rc::gen::resize(100, rc::gen::inRange<T>(lo, hi)); }
 
@@ -146,6 +147,40 @@ static void part_keyring(const Args &a) {
     if (!s || !jwks_error(s) || !jwks_error_msg(s)[0]) st.violation("C14:keyring-nonjson-not-flagged", "non-JSON document without set error/message", CASE); else { st.cls("cause:jwks-not-json"); st.nontrivial(fnv(doc)); } jwks_free(s); }
 }
 
+// ---- Part E: header/claim calls return the code they store, whatever the input (invalid UTF-8, NULL / empty names,
+// NULL strings, malformed JSON, type mismatches), on builders and on the jwt_t of both kinds of callback
+struct SGCtx { int *bad; std::string *what; };
+static void sg_probe(std::function<int(jwt_value_t *)> setf, std::function<int(jwt_value_t *)> getf, const char *where, SGCtx &x) {
+  Stats &st = stats();
+  const char *names[] = {"a", "", nullptr, "caf\xe9", "\x80", "typ", "alg"};
+  const char *strs[] = {"v", "", nullptr, "caf\xe9", "\xc3", "\xff\xfe", "ok\xe2\x82"};
+  const char *jsons[] = {"{\"k\":1}", "[1]", "5", "{", nullptr, "", "{\"a\":\"\xff\"}", "{\"a\":1,\"a\":2}"};
+  for (const char *n : names) for (int rep = 0; rep < 2; rep++) {
+    for (const char *sv : strs) { jwt_value_t v = val_str(n, sv, rep); int r = setf(&v); st.evaluations++; st.cls("setget-probes"); st.nontrivial(mix(fnv(std::string(where) + (n ? n : "<null>")), mix(fnv(sv ? sv : "<null>"), rep)));
+      if (r != (int)v.error) { (*x.bad)++; *x.what = std::string(where) + ": set STR name=" + (n ? jstr(n) : "NULL") + " value=" + (sv ? jstr(sv) : "NULL") + " returned " + std::to_string(r) + " but value.error=" + std::to_string((int)v.error); } }
+    for (const char *jv : jsons) { jwt_value_t v = val_json(n, jv, rep); int r = setf(&v); st.evaluations++;
+      if (r != (int)v.error) { (*x.bad)++; *x.what = std::string(where) + ": set JSON name=" + (n ? jstr(n) : "NULL") + " returned " + std::to_string(r) + " but value.error=" + std::to_string((int)v.error); } }
+    { jwt_value_t v = val_int(n, 7, rep); int r = setf(&v); if (r != (int)v.error) { (*x.bad)++; *x.what = std::string(where) + ": set INT mismatch"; } v = val_bool(n, 1, rep); r = setf(&v); if (r != (int)v.error) { (*x.bad)++; *x.what = std::string(where) + ": set BOOL mismatch"; } }
+    for (int t = JWT_VALUE_INT; t <= JWT_VALUE_JSON; t++) { jwt_value_t v = val_get((jwt_value_type_t)t, n); int r = getf(&v); st.evaluations++; if (t == JWT_VALUE_JSON && v.json_val) free(v.json_val);
+      if (r != (int)v.error) { (*x.bad)++; *x.what = std::string(where) + ": get type " + std::to_string(t) + " name=" + (n ? jstr(n) : "NULL") + " returned " + std::to_string(r) + " but value.error=" + std::to_string((int)v.error); } }
+  }
+}
+static int sg_cb(jwt_t *jwt, jwt_config_t *c) { SGCtx *x = (SGCtx *)c->ctx;
+  sg_probe([&](jwt_value_t *v) { return (int)jwt_claim_set(jwt, v); }, [&](jwt_value_t *v) { return (int)jwt_claim_get(jwt, v); }, "callback-jwt-claims", *x);
+  sg_probe([&](jwt_value_t *v) { return (int)jwt_header_set(jwt, v); }, [&](jwt_value_t *v) { return (int)jwt_header_get(jwt, v); }, "callback-jwt-headers", *x); return 0; }
+static void part_setget(const Args &a) {
+  if (a.worker != 1 % a.nworkers) return;
+  Stats &st = stats(); int bad = 0; std::string what; SGCtx x{&bad, &what};
+  CASE = "{\"part\":\"setget\"}";
+  { jwt_builder_t *b = jwt_builder_new();
+    sg_probe([&](jwt_value_t *v) { return (int)jwt_builder_claim_set(b, v); }, [&](jwt_value_t *v) { return (int)jwt_builder_claim_get(b, v); }, "builder-claims", x);
+    sg_probe([&](jwt_value_t *v) { return (int)jwt_builder_header_set(b, v); }, [&](jwt_value_t *v) { return (int)jwt_builder_header_get(b, v); }, "builder-headers", x);
+    jwt_builder_free(b); }
+  { jwt_builder_t *b = jwt_builder_new(); jwt_builder_setcb(b, sg_cb, &x); char *t = jwt_builder_generate(b); free(t); jwt_builder_free(b); }
+  { jwt_checker_t *c = jwt_checker_new(); jwt_checker_setcb(c, sg_cb, &x); jwt_checker_verify(c, TOKENS[14].second.c_str()); jwt_checker_free(c); }
+  if (bad) st.violation("C14:setget-return-differs-from-value.error", what, CASE);
+}
+
 // ---- Part B: random histories (checker and builder alphabets of C13/C10)
 static const std::vector<COp> *CURC = nullptr; static const std::vector<BOp> *CURB = nullptr;
 static std::string run_checker_hist(int prov, const std::vector<COp> &ops) {
@@ -172,12 +207,12 @@ int main(int argc, char **argv) {
     J j = J::parse(read_file(a.replay)); if (!j) return 2;
     const char *part = json_string_value(json_object_get(j.p, "part")); std::string pt = part ? part : "";
     Args one = a; one.nworkers = 1; one.worker = 0;
-    if (pt == "checker") part_checker(one); else if (pt == "builder") part_builder(one); else if (pt == "keyring") part_keyring(one);
+    if (pt == "checker") part_checker(one); else if (pt == "builder") part_builder(one); else if (pt == "keyring") part_keyring(one); else if (pt == "setget") { one.worker = 1 % one.nworkers; part_setget(one); }
     else if (pt == "checker-history") { std::vector<COp> ops; size_t i; json_t *e; json_array_foreach(json_object_get(j.p, "ops"), i, e) ops.push_back({(int)json_integer_value(json_array_get(e, 0)), (int)json_integer_value(json_array_get(e, 1)), (int)json_integer_value(json_array_get(e, 2))}); return run_checker_hist((int)json_integer_value(json_object_get(j.p, "prov")), ops).empty() ? 0 : 3; }
     else if (pt == "builder-history") { std::vector<BOp> ops = bops_from_json(json_object_get(j.p, "ops")); return run_builder_hist((int)json_integer_value(json_object_get(j.p, "prov")), ops).empty() ? 0 : 3; }
     return st.violations.empty() ? 0 : 3;
   }
-  part_checker(a); part_builder(a); part_keyring(a);
+  part_checker(a); part_builder(a); part_keyring(a); part_setget(a);
   uint64_t n = a.thorough() ? 100000 : 1200;
   std::string params = "seed=" + std::to_string(a.seed * 1000 + a.worker) + " max_success=" + std::to_string(n) + " max_size=100";
   setenv("RC_PARAMS", params.c_str(), 1);
